@@ -185,6 +185,88 @@ fn run_history(ops: &[Op], st: &mut Stats) -> Option<(usize, String)> {
     None
 }
 
+
+/// Capacity history: a few anchor entries, then `n_fill` stores under distinct keys (a whole game's
+/// worth of positions), with the anchors — and a sample of the fillers — re-examined at every power
+/// of two on the way: whatever the table does when it fills up, a lookup must still return nothing
+/// or exactly the data accepted for that key, and a held deeper result must still refuse a shallower
+/// one. The history is a function of (seed, n_fill), so the replay file only names those.
+fn capacity_history(seed: u64, n_fill: u64, st: &mut Stats) -> Option<String> {
+    let mut rng = Rng::new(seed, 0xCA9A);
+    let mut tt = TranspositionTable::new();
+    let mut anchors: Vec<(u64, Rec)> = vec![];
+    let mut keys = hostile_keys(&mut rng);
+    keys.sort();
+    keys.dedup();
+    for (i, k) in keys.iter().enumerate() {
+        let rec = Rec { eval: 1000 + i as i32, mv: random_move(&mut rng), depth: *rng.pick(&[1u8, 5, 9, 40, 255]), bounds: *rng.pick(&[Bounds::Exact, Bounds::Lower, Bounds::Upper]) };
+        if engine_call(|| tt.store(*k, rec.eval, rec.mv, rec.depth, rec.bounds)).is_err() {
+            return Some("store panicked".into());
+        }
+        anchors.push((*k, rec));
+    }
+    let mut sample: Vec<(u64, Rec)> = vec![];
+    let mut next_check = 1u64 << 10;
+    let mut held = anchors.len() as u64;
+    for n in 1..=n_fill {
+        let k = rng.next() | 1 << 40; // fillers never equal an anchor by construction of the check below
+        if anchors.iter().any(|(a, _)| *a == k) {
+            continue;
+        }
+        let rec = Rec { eval: (n % 2000) as i32 - 1000, mv: None, depth: (n % 7) as u8, bounds: Bounds::Exact };
+        if let Err(m) = engine_call(|| tt.store(k, rec.eval, rec.mv, rec.depth, rec.bounds)) {
+            return Some(format!("store #{} panicked: {}", n, m));
+        }
+        if n % 4099 == 0 && sample.len() < 4000 {
+            sample.push((k, rec));
+        }
+        if n == next_check || n == next_check + 1 || n == n_fill {
+            if n == next_check + 1 {
+                next_check <<= 1;
+            }
+            st.bump("capacity_checkpoints");
+            st.maxi("max_distinct_keys_stored_in_one_table", n + anchors.len() as u64);
+            let mut still = 0;
+            for (k, want) in anchors.iter_mut().chain(sample.iter_mut()) {
+                match engine_call(|| tt.retrieve(*k).copied()) {
+                    Err(m) => return Some(format!("retrieve panicked: {}", m)),
+                    Ok(None) => {
+                        st.bump("retrieve_dropped");
+                        // forgotten: the next accepted store defines the data for this key
+                        let rec = Rec { eval: want.eval + 1, mv: want.mv, depth: want.depth, bounds: want.bounds };
+                        if engine_call(|| tt.store(*k, rec.eval, rec.mv, rec.depth, rec.bounds)).is_err() {
+                            return Some("store panicked".into());
+                        }
+                        *want = rec;
+                    }
+                    Ok(Some(e)) => {
+                        still += 1;
+                        st.bump("retrieve_hit");
+                        if e.hash_key != *k || rec_of(&e) != *want {
+                            return Some(format!("after {} stores under distinct keys, retrieve({:#x}) returned {:?}; the data accepted for that key is {:?}", n, k, e, want));
+                        }
+                        // a shallower result must not replace it
+                        if want.depth > 0 {
+                            if engine_call(|| tt.store(*k, -want.eval, None, want.depth - 1, Bounds::Upper)).is_err() {
+                                return Some("store panicked".into());
+                            }
+                            st.bump("store_refused_shallower");
+                            match tt.retrieve(*k).copied() {
+                                Some(e2) if rec_of(&e2) == *want => {}
+                                None => {}
+                                Some(e2) => return Some(format!("after {} stores under distinct keys, a depth-{} result replaced the depth-{} result held for {:#x}: now {:?}", n, want.depth - 1, want.depth, k, e2)),
+                            }
+                        }
+                    }
+                }
+            }
+            held = still;
+        }
+    }
+    st.maxi("anchor_and_sample_entries_still_held_at_the_end", held);
+    None
+}
+
 fn gen_history(rng: &mut Rng, len: usize) -> Vec<Op> {
     let keys = hostile_keys(rng);
     let nkeys = *rng.pick(&[2usize, 3, 5, keys.len()]);
@@ -209,12 +291,20 @@ fn gen_history(rng: &mut Rng, len: usize) -> Vec<Op> {
 pub fn run(ctx: &Ctx) -> i32 {
     let spec = Spec {
         level: "exploration",
-        rule: "cases are store/retrieve operations inside random histories on a fresh table, each checked online against a reference map with the rule 'replace iff new depth >= held depth' (the held state is re-observed before every store so that a table that legitimately drops entries is not accused); keys are hostile: 0, 1, MAX, pairs differing in one bit, sets equal in the low 16/20/24/32 bits or in the high 32 bits, rotations; depths around 0, 127/128 and 255; all three bounds; None moves. evaluations counts operations; distinct by (operation kind, key, eval, depth, bound); every operation counts as non-trivial because all keys, depths and scores are drawn from the hostile sets",
+        rule: "cases are store/retrieve operations inside random histories on a fresh table, each checked online against a reference map with the rule 'replace iff new depth >= held depth' (the held state is re-observed before every store so that a table that legitimately drops entries is not accused); keys are hostile: 0, 1, MAX, pairs differing in one bit, sets equal in the low 16/20/24/32 bits or in the high 32 bits, rotations; depths around 0, 127/128 and 255; all three bounds; None moves. Capacity histories: a few dozen anchor entries, then up to 2^20 (quick) / 2^22 (thorough) stores under distinct keys, anchors and a sample of the fillers re-examined at every power of two. evaluations counts operations; distinct by (operation kind, key, eval, depth, bound); every operation counts as non-trivial because all keys, depths and scores are drawn from the hostile sets",
         assumptions: vec!["a retrieve that returns nothing for a key that holds data is accepted (the property allows a lossy table); retrieve_hit must be > 0 for the run to count".into()],
-        required: if ctx.replay.is_some() { vec![] } else { vec!["retrieve_hit", "retrieve_miss", "store_first", "store_replaces_equal_depth", "store_replaces_shallower", "store_refused_shallower"] },
+        required: if ctx.replay.is_some() { vec![] } else { vec!["retrieve_hit", "retrieve_miss", "store_first", "store_replaces_equal_depth", "store_replaces_shallower", "store_refused_shallower", "capacity_histories", "capacity_checkpoints"] },
         exhaustive: false,
         extra: vec![],
     };
+    if let Some(c) = ctx.replay.as_ref().and_then(|r| r.get("case")).filter(|c| c.str_of("kind") == "capacity") {
+        let mut st = Stats::new();
+        st.case(1, true);
+        if let Some(why) = capacity_history(c.int_of("history_seed") as u64, c.int_of("distinct_keys") as u64, &mut st) {
+            st.violation("C15:capacity:replay", why, c.clone());
+        }
+        return finalize(ctx, spec, st);
+    }
     if let Some(r) = ctx.replay.as_ref() {
         let mut st = Stats::new();
         let ops: Vec<Op> = r.get("case").and_then(|c| c.get("ops")).and_then(|o| o.as_arr()).cloned().unwrap_or_default().iter().filter_map(op_parse).collect();
@@ -230,6 +320,22 @@ pub fn run(ctx: &Ctx) -> i32 {
     let total = parallel(ctx.workers, |w| {
         let mut st = Stats::new();
         let mut rng = Rng::new(ctx.seed, 400 + w as u64);
+        // capacity histories: the table filled far beyond what any unit test stores; sizes just
+        // past the powers of two up to 2^20 (quick) / 2^22 (thorough), spread over the workers
+        {
+            let top: u32 = if ctx.quick() { 20 } else { 22 };
+            let exp = top.saturating_sub((w as u32) % 6 * 2).max(10);
+            let n_fill = (1u64 << exp) + (1u64 << (exp - 2)) + rng.below(1000);
+            let hseed = ctx.seed.wrapping_mul(1000).wrapping_add(w as u64);
+            st.case(hash64(&(0xCAu8, hseed, n_fill)), true);
+            st.bump("capacity_histories");
+            if w == 0 {
+                st.sample_tagged("capacity", || J::obj(vec![("kind", J::s("capacity")), ("history_seed", J::i(hseed as i64)), ("distinct_keys", J::i(n_fill as i64))]));
+            }
+            if let Some(why) = capacity_history(hseed, n_fill, &mut st) {
+                st.violation(format!("C15:capacity:{}:{}", hseed, n_fill), why, J::obj(vec![("kind", J::s("capacity")), ("history_seed", J::i(hseed as i64)), ("distinct_keys", J::i(n_fill as i64))]));
+            }
+        }
         for h in 0..histories {
             if ctx.out_of_time() {
                 break;
